@@ -212,4 +212,56 @@ func runC08(r *an.Run) {
 				}
 			}
 		})
+
+	r.Obl("response-acked-only-when-delivered-or-moot", "GUARD",
+		"a settle/fail reference of an outgoing channel's forwarding package is acknowledged (AckSettleFails, ackSettleFail, queued in pendingSettleFails) only: by the switch when the circuit is unknown (already fully closed and deleted), by the switch for a locally initiated payment after its result was stored, by the ack ticker flushing that queue, and by a link cleaning up a spurious response after acking the incoming add",
+		"acknowledging a response that merely sits in the incoming mailbox makes the restart skip its re-forwarding: the downstream settle is lost and the incoming HTLC dangles", 5,
+		func(o *an.Obl) {
+			n := 0
+			for _, f := range p.Funcs(false, "htlcswitch") {
+				// queue appends
+				for _, s := range f.Assigns(an.Field(hs+"Switch", "pendingSettleFails", nil), false) {
+					as := s.Node.(*ast.AssignStmt)
+					if !isAppend(f, as.Rhs[0]) {
+						// the flush `= s.pendingSettleFails[:0]`
+						if f.ID != hs+"Switch.htlcForwarder" {
+							o.FailAt(f.ID+"#queue-reset", s.Where(), "%s resets the pending settle/fail queue", f.ID)
+						}
+						continue
+					}
+					n++
+					o.Site("%s", s.String())
+					if f.ID != hs+"Switch.closeCircuit" {
+						o.FailAt(f.ID+"#queues-ack", s.Where(), "%s queues a settle/fail acknowledgement", f.ID)
+						continue
+					}
+					guarded(o, f, s, an.Cmp(an.LocalNamed("err"), an.EQ, an.PkgVar("htlcswitch", "ErrUnknownCircuit"), "err == ErrUnknownCircuit"))
+					if c := f.Canon(as.Rhs[0]); !strings.HasSuffix(c, "*$p0.destRef)") {
+						o.FailAt(f.ID+"#queued-ref", s.Where(), "the queued reference is %s, expected the packet's destRef", c)
+					}
+				}
+				for _, s := range f.Calls(an.CalleeNamed("ackSettleFail", "AckSettleFails"), false) {
+					if strings.HasSuffix(f.Root().ID, ".ackSettleFail") {
+						continue
+					}
+					n++
+					o.Site("%s", s.String())
+					switch f.ID {
+					case hs + "Switch.handleLocalResponse":
+						mustPass(o, f, "networkResults.storeResult", f.Calls(an.CalleeNamed("storeResult"), false), an.OkErrNil, []an.Site{s})
+					case hs + "Switch.htlcForwarder":
+						if a := f.ArgCanon(s); a[0] != "$recv.pendingSettleFails" {
+							o.FailAt(f.ID+"#flushes", s.Where(), "the ack ticker acknowledges %s", a[0])
+						}
+					case hs + "channelLink.cleanupSpuriousResponse":
+						mustPass(o, f, "AckAddHtlcs", f.Calls(an.CalleeNamed("AckAddHtlcs"), false), an.OkErrNil, []an.Site{s})
+					default:
+						o.FailAt(f.ID+"#acks-response", s.Where(), "%s acknowledges a settle/fail reference; the site is not in the table", f.ID)
+					}
+				}
+			}
+			if n < 4 {
+				o.FailAt("AckSettleFails#sites", "", "expected at least 4 acknowledgement sites, found %d", n)
+			}
+		})
 }
